@@ -96,12 +96,15 @@ struct Env {
 
 impl Env {
     fn new(cs: usize) -> Env {
+        Self::with_batch(cs, 1_000_000)
+    }
+    fn with_batch(cs: usize, batch: usize) -> Env {
         let rt = tokio::runtime::Builder::new_current_thread().enable_all().build().unwrap();
         let store = TensorStore::new();
         let config = BlobConfig::new()
             .with_chunk_size(cs)
             .with_gc_min_age(Duration::from_secs(MIN_AGE))
-            .with_gc_batch_size(1_000_000);
+            .with_gc_batch_size(batch);
         let blob = rt.block_on(BlobStore::new(store.clone(), config)).unwrap();
         Env {
             rt,
@@ -350,7 +353,15 @@ fn op_coq(op: &Op, examined: &[u64]) -> String {
 /// Run `ops` on a fresh store; returns (env, coq ops, coq observations, whether any artifact shared
 /// a chunk with another / any chunk was collected)
 fn run_trace(cs: usize, ops: &[Op]) -> (Env, Vec<String>, Vec<String>, bool) {
-    let mut env = Env::new(cs);
+    run_trace_batch(cs, 1_000_000, ops)
+}
+
+/// `batch` = gc_batch_size.  With a batch smaller than the store the keys gc_cycle examines are the
+/// first `batch` keys of a HashMap scan (not observable): the model is then given the keys that
+/// actually disappeared as the examined ones (it must agree that each of them was collectable, and on
+/// the statistics), and the harness checks that no more than `batch` disappeared.
+fn run_trace_batch(cs: usize, batch: usize, ops: &[Op]) -> (Env, Vec<String>, Vec<String>, bool) {
+    let mut env = Env::with_batch(cs, batch);
     let mut cops = vec![];
     let mut cobs = vec![];
     let mut interesting = false;
@@ -365,7 +376,14 @@ fn run_trace(cs: usize, ops: &[Op]) -> (Env, Vec<String>, Vec<String>, bool) {
         let reads: Vec<String> = (0..env.ids.len() as u64)
             .map(|i| format!("({i}, {}, {})", env.get(i).coq(), env.verify(i).coq()))
             .collect();
-        cops.push(op_coq(op, &before));
+        let examined: Vec<u64> = if batch < 1_000_000 && matches!(op, Op::Gc) {
+            let gone: Vec<u64> = before.iter().copied().filter(|k| !cd.iter().any(|e| e.0 == *k)).collect();
+            assert!(gone.len() <= batch, "gc_cycle removed {} chunks with batch_size {}", gone.len(), batch);
+            gone
+        } else {
+            before.clone()
+        };
+        cops.push(op_coq(op, &examined));
         cobs.push(format!("({}, {}, {}, {})", r.coq(), cdump_coq(&cd), adump_coq(&ad), list(reads)));
     }
     (env, cops, cobs, interesting)
@@ -769,7 +787,14 @@ fn main() {
         let len = rng.range(3, 22) as usize;
         let ops = gen_ops(&mut rng, cs, len, &mut dist);
         dist.hit(&format!("trace.len.{}", (ops.len() / 5) * 5));
-        push_trace(&mut trace, cs, &ops, "random");
+        if rng.chance(1, 5) {
+            let batch = rng.range(1, 2) as usize;
+            let (env, cops, cobs, interesting) = run_trace_batch(cs, batch, &ops);
+            dist.hit("trace.small_gc_batch");
+            trace.push(&trace_term(cs, &env, &cops, &cobs), &format!("random gc_batch_size={batch} cs={cs} ops={:?}", ops), interesting);
+        } else {
+            push_trace(&mut trace, cs, &ops, "random");
+        }
     }
 
     // ---- verify under damage
